@@ -5,6 +5,7 @@ import (
 	"math"
 	"strconv"
 	"strings"
+	"unicode"
 	"unicode/utf8"
 
 	"github.com/safing/portbase/database/query"
@@ -475,10 +476,30 @@ func tokenClasses(t string) []string {
 	}
 	if !utf8.ValidString(t) {
 		cl = append(cl, "invalid-utf8")
-	} else if len(t) != utf8.RuneCountInString(t) {
-		cl = append(cl, "multibyte")
+	} else {
+		ows, mb := false, false
+		for _, r := range t {
+			switch {
+			case isOtherSpace(r):
+				ows = true
+			case r >= 0x80:
+				mb = true
+			}
+		}
+		if ows {
+			cl = append(cl, "other-white-space")
+		}
+		if mb {
+			cl = append(cl, "multibyte")
+		}
 	}
 	return cl
+}
+
+// isOtherSpace: Unicode white space that the documentation does not list as a
+// separator (it lists blank, \t, \r, \n): \v, \f, U+0085, U+00A0, U+1680, U+2000.., U+3000.
+func isOtherSpace(r rune) bool {
+	return unicode.IsSpace(r) && r != ' ' && r != '\t' && r != '\n' && r != '\r'
 }
 
 func endsInMultibyte(text string) bool {
@@ -683,6 +704,8 @@ func runeRank(r rune) int {
 		return 7
 	case r == '\n':
 		return 8
+	case isOtherSpace(r):
+		return 11
 	case r < 0x80:
 		return 9
 	}
